@@ -240,3 +240,34 @@ func specIsCtl(m hsms.Message) bool {
 //@ ensures [deselect] specCtlHeader(msg)[5] == 3 ==> zzCalls("hsmsss.(*transport).handleDeselectReq") == 1 && zzCalls("hsmsss.(*transport).handleSelectReq") == 0 && zzCalls("hsmsss.(*transport).handleLinktestReq") == 0
 //@ ensures [linktest] specCtlHeader(msg)[5] == 5 ==> zzCalls("hsmsss.(*transport).handleLinktestReq") == 1 && zzCalls("hsmsss.(*transport).handleSelectReq") == 0 && zzCalls("hsmsss.(*transport).handleDeselectReq") == 0
 //@ ensures [never]    zzCalls("hsms.(TransportRuntime).TCPDown") == 0 && zzCalls("hsms.(TransportRuntime).DeliverOwnedFrame") == 0
+
+// dispatchFrame: one inbound frame, classified per SEMI E37 §7 / §8.3 (DESIGN.md Appendix F.4). The clauses name the
+// responder that runs (each responder's own contract fixes the frame it sends).
+//
+//@ func (*transport).dispatchFrame
+//@ nosafety nil-deref nil-iface
+//@ paths returns
+//@ requires t != nil && len(frame) >= 10
+//@ emits hsmsss.(*transport).sendReject, hsmsss.(*transport).sendRejectNotSelected, hsmsss.(*transport).sendRejectTransactionNotOpen, hsmsss.(*transport).handleControlReq, hsmsss.(*transport).handleSeparateReq, hsmsss.(*transport).handleSelectReq, hsmsss.(*transport).handleLinktestReq, hsmsss.(*transport).handleDeselectReq, hsms.(TransportRuntime).SendAsync, hsms.(TransportRuntime).TCPDown, hsms.(TransportRuntime).DeliverOwnedFrame, hsms.(TransportRuntime).State, hsms.(TransportRuntime).SelectLost, hsms.(TransportRuntime).CommitSelected, hsms.(TransportRuntime).RouteReply
+//@ ensures [ptype]    frame[4] != 0 ==> result && zzCalls("hsmsss.(*transport).sendReject") == 1 && zzArg[byte]("hsmsss.(*transport).sendReject", 1) == frame[4] &&
+//@                    zzCalls("hsms.(TransportRuntime).TCPDown") == 0 && zzCalls("hsms.(TransportRuntime).DeliverOwnedFrame") == 0
+//@ ensures [stype]    frame[4] == 0 && !(frame[5] <= 7 || frame[5] == 9) ==> result && zzCalls("hsmsss.(*transport).sendReject") == 1 &&
+//@                    zzArg[byte]("hsmsss.(*transport).sendReject", 1) == 0 && zzArg[byte]("hsmsss.(*transport).sendReject", 2) == frame[5] &&
+//@                    zzCalls("hsms.(TransportRuntime).TCPDown") == 0 && zzCalls("hsms.(TransportRuntime).DeliverOwnedFrame") == 0
+//@ ensures [ctlbody]  frame[4] == 0 && (frame[5] <= 7 || frame[5] == 9) && frame[5] != 0 && len(frame) != 10 ==> result &&
+//@                    zzCalls("hsmsss.(*transport).sendReject") == 1 && zzArg[byte]("hsmsss.(*transport).sendReject", 1) == 0 && zzArg[byte]("hsmsss.(*transport).sendReject", 2) == frame[5] &&
+//@                    zzCalls("hsms.(TransportRuntime).TCPDown") == 0 && zzCalls("hsms.(TransportRuntime).DeliverOwnedFrame") == 0 && zzCalls("hsmsss.(*transport).handleSeparateReq") == 0
+//@ ensures [datans]   frame[4] == 0 && frame[5] == 0 && zzRet[hsms.ConnState]("hsms.(TransportRuntime).State") != hsms.SelectedState ==> result &&
+//@                    zzCalls("hsmsss.(*transport).sendRejectNotSelected") == 1 && zzCalls("hsms.(TransportRuntime).DeliverOwnedFrame") == 0 && zzCalls("hsms.(TransportRuntime).TCPDown") == 0
+//@ ensures [datasel]  frame[4] == 0 && frame[5] == 0 && zzRet[hsms.ConnState]("hsms.(TransportRuntime).State") == hsms.SelectedState ==> result &&
+//@                    zzCalls("hsms.(TransportRuntime).DeliverOwnedFrame") == 1 && zzCalls("hsmsss.(*transport).sendRejectNotSelected") == 0 &&
+//@                    zzCalls("hsmsss.(*transport).sendReject") == 0 && zzCalls("hsms.(TransportRuntime).TCPDown") == 0
+//@ ensures [req]      frame[4] == 0 && len(frame) == 10 && (frame[5] == 1 || frame[5] == 3 || frame[5] == 5) ==> result &&
+//@                    zzCalls("hsmsss.(*transport).handleControlReq") == 1 && zzCalls("hsmsss.(*transport).sendReject") == 0 && zzCalls("hsms.(TransportRuntime).DeliverOwnedFrame") == 0
+//@ ensures [sep]      frame[4] == 0 && len(frame) == 10 && frame[5] == 9 ==> zzCalls("hsmsss.(*transport).handleSeparateReq") == 1 &&
+//@                    zzCalls("hsmsss.(*transport).sendReject") == 0 && zzCalls("hsms.(TransportRuntime).DeliverOwnedFrame") == 0
+//@ ensures [orphan]   frame[4] == 0 && len(frame) == 10 && (frame[5] == 2 || frame[5] == 4 || frame[5] == 6) && !zzRet[bool]("hsms.(TransportRuntime).RouteReply") ==> result &&
+//@                    zzCalls("hsmsss.(*transport).sendRejectTransactionNotOpen") == 1 && zzCalls("hsms.(TransportRuntime).TCPDown") == 0
+//@ ensures [orphanrej] frame[4] == 0 && len(frame) == 10 && frame[5] == 7 ==> result && zzCalls("hsmsss.(*transport).sendRejectTransactionNotOpen") == 0 &&
+//@                    zzCalls("hsmsss.(*transport).sendReject") == 0 && zzCalls("hsms.(TransportRuntime).TCPDown") == 0
+//@ ensures [keep]     zzCalls("hsmsss.(*transport).handleSeparateReq") == 0 ==> result && zzCalls("hsms.(TransportRuntime).TCPDown") == 0
